@@ -274,4 +274,11 @@ def sendDelta (s : State) (t : Ty) (nonce : String) (newNames : Option (List Str
     s.set t (some { w with nonceSent := nonce })
   else s
 
+/-- `shouldSetWatchedResources`: after a delta push of such a type the recorded names are REPLACED by what the push
+    carried (wildcard types whose generator does not manage the names itself). -/
+def Ty.setsWatched (t : Ty) : Bool := !t.managed && t.wildcard
+
+/-- The `newResourceNames` argument `pushDeltaXds` hands to `sendDelta` for a response carrying the names `gen`. -/
+def sentNames (t : Ty) (gen : List String) : Option (List String) := if t.setsWatched then some gen else none
+
 end IstioModel.C04
